@@ -43,3 +43,9 @@ Definition lay_ok (y : lay) : Prop :=
 Definition seg_ok (s : seg) : Prop := match s with SWs w => Forall ws_char w | SComment c => 10 ∉ c end.
 Definition layout_ok (g0 : list seg) (ls : list (bline * lay * list seg)) : Prop :=
   Forall seg_ok g0 ∧ Forall (λ p, lay_ok p.1.2 ∧ Forall seg_ok p.2) ls.
+
+(* a text may end in a comment that no newline terminates *)
+Definition render_fin (fin : option (list nat)) : list nat := match fin with Some c => 35 :: c | None => [] end.
+Definition render_layout_fin (g0 : list seg) (ls : list (bline * lay * list seg)) (fin : option (list nat)) : list nat :=
+  (render_layout g0 ls ++ render_fin fin)%list.
+Definition fin_ok (fin : option (list nat)) : Prop := match fin with Some c => 10 ∉ c | None => True end.
